@@ -2156,3 +2156,99 @@ extern "C"
             once_leave(g, false);
     }
 }
+
+// ---------------------------------------------------------------------------------------------
+// sections and tasks.  Sections are a work-share of `count` units handed out on demand.  Tasks are executed
+// immediately by the encountering member (an implementation may always execute a task undeferred), so
+// taskwait / taskgroup have nothing to wait for; taskloop runs its whole range as one task.
+// ---------------------------------------------------------------------------------------------
+extern "C"
+{
+    unsigned GOMP_sections_next(void)
+    {
+        unsigned long long s, e;
+        if (!ws_next(&s, &e))
+            return 0;
+        return (unsigned)s;
+    }
+    unsigned GOMP_sections_start(unsigned count)
+    {
+        ws_enter(1, true, 1, (unsigned long long)count + 1, 1, 1);
+        return GOMP_sections_next();
+    }
+    void GOMP_sections_end(void) { GOMP_barrier(); }
+    void GOMP_sections_end_nowait(void) {}
+    bool GOMP_sections_end_cancel(void)
+    {
+        GOMP_barrier();
+        return false;
+    }
+    void GOMP_parallel_sections(void (*fn)(void *), void *data, unsigned num_threads, unsigned count, unsigned flags)
+    {
+        WorkShare w;
+        memset(&w, 0, sizeof w);
+        w.kind = 1;
+        w.up = true;
+        w.next = 1;
+        w.end = (unsigned long long)count + 1;
+        w.incr = 1;
+        w.chunk = 1;
+        g_ws.clear();
+        g_ws.push_back(w);
+        g_ws_preinit = true;
+        g_orphan.ws_cur = 0;
+        g_orphan.ws_count = 1;
+        GOMP_parallel(fn, data, num_threads, flags);
+        g_ws_preinit = false;
+    }
+
+    static void run_task_now(void (*fn)(void *), void *data, void (*cpyfn)(void *, void *), long arg_size, long arg_align, long *range)
+    {
+        if (cpyfn || range)
+        {
+            size_t al = arg_align > 0 ? (size_t)arg_align : 16;
+            char *raw = (char *)malloc((size_t)arg_size + al);
+            char *arg = (char *)(((uintptr_t)raw + al - 1) & ~(uintptr_t)(al - 1));
+            if (cpyfn)
+                cpyfn(arg, data);
+            else
+                memcpy(arg, data, (size_t)arg_size);
+            if (range)
+            {
+                ((long *)arg)[0] = range[0];
+                ((long *)arg)[1] = range[1];
+            }
+            fn(arg);
+            free(raw);
+        }
+        else
+            fn(data);
+    }
+    void GOMP_task(void (*fn)(void *), void *data, void (*cpyfn)(void *, void *), long arg_size, long arg_align, bool, unsigned, void **, int, void *)
+    {
+        if (g_in_region && g_nest == 0 && g_T > 1)
+            step();
+        run_task_now(fn, data, cpyfn, arg_size, arg_align, nullptr);
+    }
+    void GOMP_taskloop(void (*fn)(void *), void *data, void (*cpyfn)(void *, void *), long arg_size, long arg_align, unsigned, unsigned long, int, long start, long end, long)
+    {
+        long range[2] = {start, end};
+        run_task_now(fn, data, cpyfn, arg_size, arg_align, range);
+    }
+    void GOMP_taskloop_ull(void (*fn)(void *), void *data, void (*cpyfn)(void *, void *), long arg_size, long arg_align, unsigned, unsigned long, int, unsigned long long start, unsigned long long end,
+                           unsigned long long)
+    {
+        long range[2] = {(long)start, (long)end};
+        run_task_now(fn, data, cpyfn, arg_size, arg_align, range);
+    }
+    void GOMP_taskwait(void) {}
+    void GOMP_taskwait_depend(void **) {}
+    void GOMP_taskyield(void) {}
+    void GOMP_taskgroup_start(void) {}
+    void GOMP_taskgroup_end(void) {}
+    int omp_get_num_teams(void) { return 1; }
+    int omp_get_team_num(void) { return 0; }
+    int omp_in_final(void) { return 1; }
+    int omp_get_ancestor_thread_num(int level) { return level == 0 ? 0 : omp_get_thread_num(); }
+    int omp_get_team_size(int level) { return level == 0 ? 1 : omp_get_num_threads(); }
+}
